@@ -1495,7 +1495,9 @@ public:
             // locations because those writes wrote values of
             // different types.
 
-            new_rgn_info.init_val() = boolean_value::get_false();
+            // (the region is uninitialized for THIS store, which can
+            // be a strong update; after the store it is initialized)
+            is_uninitialized_rgn = true;
             new_rgn_info.type_val() = variable_type::mk_region(val.get_type());
 
             m_ghost_var_man.forget(rgn, m_base_dom);
